@@ -7,6 +7,9 @@
 (* State                                                                                                             *)
 (*   settings  the designed network's settings (an abstract constant record: per amplifier its gain and p_max)       *)
 (*   live      the run-time operating point held by the NETWORK's own element objects (Edfa.effective_gain ...)      *)
+(*   sim       the process-wide simulation parameters (SimParams): here the channels the NLI is evaluated on - NONE  *)
+(*             means "derive them from the propagated comb"; a propagation that stores what it derived fixes them     *)
+(*             for every later request                                                                              *)
 (*   occ       spectrum occupancy per OMS (set of slot indices)                                                      *)
 (*   done      sequence of processed request classes;  result[r]  the result computed for r (NoResult before)        *)
 (*   response  <<>> until Report, then one entry per processed request                                               *)
@@ -21,13 +24,15 @@ CONSTANTS Classes,     \* request classes of the pool (strings)
           Amps,        \* amplifiers of the designed network
           Oms,         \* optical multiplex sections
           Design,      \* [Amps -> [gain, pmax]]  what the design step produced
-          Req,         \* [Classes -> [short, rshort, include, hop, via, rvia, oms, load, mode, modes, slot, bidir, bw, type]]  (see MC_Planning)
+          Req,         \* [Classes -> [short, rshort, include, hop, via, rvia, oms, load, nch, mode, modes, slot, bidir, bw, type]]  (see MC_Planning)
           ModeTable,   \* sequence of [name, thr] explored in this order by the automatic selection
           NSlots,      \* slot indices 0..NSlots-1 on every OMS
           Leaky        \* FALSE: the property's mechanism (private copy); TRUE: the defect
 
-VARIABLES settings, live, occ, done, result, response
-vars == <<settings, live, occ, done, result, response>>
+VARIABLES settings, live, sim, occ, done, result, response
+vars == <<settings, live, sim, occ, done, result, response>>
+
+SimDefault == [cut |-> NONE]
 
 NoResult == [reason |-> "none", raised |-> <<>>, route |-> <<>>, mode |-> "", gsnr |-> NONE, gsnrRev |-> NONE, nm |-> <<>>]
 Slots    == 0..(NSlots - 1)
@@ -44,6 +49,10 @@ Walk(d, st, path, k, p) ==
              nx  == Walk(d, [st EXCEPT ![a] = eff], path, k + 1, p + eff - d[a].gain)
          IN [st |-> nx.st, deficit |-> nx.deficit + (d[a].gain - eff)]
 Gsnr(path, deficit) == 30000000 - 1500000 * Len(path) - 1000000 * deficit          \* micro-dB, abstract
+(* NLI is evaluated on a few channels spread over the propagated comb (r.nch carriers) and interpolated: evaluating   *)
+(* it on positions derived from ANOTHER comb costs accuracy.                                                          *)
+Cut(simv, r)     == IF simv.cut # NONE THEN simv.cut ELSE r.nch
+NliError(simv, r) == 300000 * AbsI(Cut(simv, r) - r.nch)
 
 (* Route: the include-node constraint of the request.  r.via is the route through the nodes to include (<<>> when    *)
 (* no route crosses them in order); r.short is the unconstrained shortest route between the same ends.  A STRICT      *)
@@ -78,18 +87,18 @@ Assign(oc, r) ==
 (* judgement with the retained mode, spectrum - the last one only attempted for a request not yet blocked);           *)
 (* the request CARRIES THE FIRST ONE: a later stage never rewrites the reason of a request that is already blocked.   *)
 First(raised) == IF raised = <<>> THEN "" ELSE raised[1]
-Compute(d, st, oc, c) ==
+Compute(d, st, simv, oc, c) ==
     LET r == Req[c]  path == Route(r) IN
     IF path = <<>> THEN [res |-> [reason |-> "NO_PATH_WITH_CONSTRAINT", raised |-> <<"NO_PATH_WITH_CONSTRAINT">>,
                                   route |-> <<>>, mode |-> r.mode, gsnr |-> NONE, gsnrRev |-> NONE, nm |-> <<>>],
-                         st |-> st, oc |-> oc]
+                         st |-> st, cut |-> simv.cut, oc |-> oc]
     ELSE LET rpath == IF path = r.via THEN r.rvia ELSE r.rshort
              w   == Walk(d, st, path, 1, r.load)
-             g   == Gsnr(path, w.deficit)
+             g   == Gsnr(path, w.deficit) - NliError(simv, r)
              j   == Judge(r, g)
              w2  == IF r.bidir THEN Walk(d, w.st, rpath, 1, r.load)      \* the reverse direction: its own amplifiers
                     ELSE [st |-> w.st, deficit |-> 0]
-             g2  == IF r.bidir THEN Gsnr(rpath, w2.deficit) - 100000 ELSE NONE
+             g2  == IF r.bidir THEN Gsnr(rpath, w2.deficit) - NliError(simv, r) - 100000 ELSE NONE
              fwd == IF j.reason # "" THEN <<j.reason>> ELSE <<>>
              rev == IF r.bidir /\ g2 < ThrOf(j.mode) THEN <<"MODE_NOT_FEASIBLE">> ELSE <<>>
              nm  == IF fwd \o rev = <<>> THEN Assign(oc, r) ELSE <<>>
@@ -97,16 +106,17 @@ Compute(d, st, oc, c) ==
              raised == fwd \o rev \o spc
          IN [res |-> [reason |-> First(raised), raised |-> raised, route |-> path, mode |-> j.mode, gsnr |-> g,
                       gsnrRev |-> g2, nm |-> IF nm = <<>> THEN <<>> ELSE <<nm>>],
-             st |-> w2.st,
+             st |-> w2.st, cut |-> Cut(simv, r),
              oc |-> IF raised = <<>> THEN [o \in Oms |-> IF o \in r.oms THEN oc[o] \cup Range(nm[1], nm[2]) ELSE oc[o]]
                     ELSE oc]
 
 DesignGains(d) == [a \in Amps |-> d[a].gain]
-Solo(c) == Compute(Design, DesignGains(Design), [o \in Oms |-> {}], c).res     \* the result of c computed alone
+Solo(c) == Compute(Design, DesignGains(Design), SimDefault, [o \in Oms |-> {}], c).res     \* the result of c computed alone
 
 -----------------------------------------------------------------------------
 Init == /\ settings = Design
         /\ live = DesignGains(Design)
+        /\ sim = SimDefault
         /\ occ = [o \in Oms |-> {}]
         /\ done = <<>>
         /\ result = [c \in Classes |-> NoResult]
@@ -116,10 +126,11 @@ Process(c) ==
     /\ response = <<>>
     /\ c \notin SeqRange(done)
     /\ LET start == IF Leaky THEN live ELSE DesignGains(settings)      \* deepcopy(path) vs the shared objects
-           x     == Compute(settings, start, occ, c)
+           x     == Compute(settings, start, sim, occ, c)
        IN /\ result' = [result EXCEPT ![c] = x.res]
           /\ occ' = x.oc
           /\ live' = IF Leaky THEN x.st ELSE live
+          /\ sim' = IF Leaky THEN [cut |-> x.cut] ELSE sim         \* the defect: what was derived is stored
     /\ done' = Append(done, c)
     /\ UNCHANGED <<settings, response>>
 
@@ -135,7 +146,7 @@ OutcomeOf(c) ==
      mi |-> [osnr |-> 1200, margin |-> 200, baud |-> 3200, bitrate |-> 10000, cost |-> 100]]
 Report == /\ response = <<>> /\ done # <<>>
           /\ response' = [i \in 1..Len(done) |-> ReportEntry(OutcomeOf(done[i]))]
-          /\ UNCHANGED <<settings, live, occ, done, result>>
+          /\ UNCHANGED <<settings, live, sim, occ, done, result>>
 
 Next == (\E c \in Classes : Process(c)) \/ Report
 Spec == Init /\ [][Next]_vars
@@ -149,7 +160,8 @@ Independent ==       \* route, mode, GSNR figures and feasibility verdict: as if
     \A i \in 1..Len(done) : Core(result[done[i]]) = Core(Solo(done[i]))
 
 NetworkFrozen == [][settings' = settings /\ live' = live]_vars          \* computing requests changes no setting
-SettingsAreTheDesign == settings = Design /\ live = DesignGains(Design)
+SimParamsFrozen == [][sim' = sim]_vars                                  \* ... and no process-wide simulation parameter
+SettingsAreTheDesign == settings = Design /\ live = DesignGains(Design) /\ sim = SimDefault
 
 OnlySlotsDependOnHistory ==     \* a result differs from the solo result only in its slots (or NO_SPECTRUM), and only
     \A i \in 1..Len(done) :     \* when an earlier SERVED request shares an OMS with it; the first one never differs
